@@ -44,6 +44,16 @@ fn check_writer(ctx: &mut Ctx, label: &str, obj: &dyn AttributeWrite, value_len:
                 results.push((total - padded_want, ret, dest));
             }
         }
+        // the unchecked writer called directly (a public trait method) on a larger destination:
+        // exactly the padded length is written there too
+        {
+            let mut dest = vec![FILL; padded_want + 16];
+            obj.write_into_unchecked(&mut dest);
+            results.push((16, Ok(padded_want), dest));
+            let mut dest = vec![FILL; padded_want + 5];
+            raw.write_into_unchecked(&mut dest);
+            results.push((5, Ok(padded_want), dest));
+        }
         // the raw attribute's own in-place writer too
         let mut dest = vec![FILL; padded_want + 3];
         let ret = raw.write_into(&mut dest).map_err(|e| format!("{e:?}"));
